@@ -1,6 +1,7 @@
 package main
 
 import (
+	"encoding/json"
 	"fmt"
 	"os"
 	"runtime/pprof"
@@ -89,4 +90,38 @@ func bench() {
 		fmt.Fprintf(os.Stderr, "start %v barrier %v observe %v patch(%d) %v barrier %v expect %v close %v (snap %d bytes, valid %v)\n",
 			t1.Sub(t0), t2.Sub(t1), t3.Sub(t2), st, t4.Sub(t3), t5.Sub(t4), t6.Sub(t5), t7.Sub(t6), len(o.Snap), e.valid)
 	}
+}
+
+// replay runs one history in this process and prints what happens (diagnostic, not part of the check).
+func replay(js string) {
+	var ops []Op
+	if err := json.Unmarshal([]byte(js), &ops); err != nil {
+		fmt.Println("bad history:", err)
+		return
+	}
+	dir, _ := os.MkdirTemp("", "verif-c12r-")
+	defer os.RemoveAll(dir)
+	_ = os.Chdir(dir)
+	_ = os.MkdirAll(dir+"/exp", 0o755)
+	w := &workerState{dir: dir, port: 24991, expMemo: map[string]*expected{}}
+	w.base = baseConf(w.port)
+	l, err := w.start()
+	if err != nil {
+		fmt.Println(err)
+		return
+	}
+	for _, op := range ops {
+		m, p := op.Request()
+		st, body, err := l.do(m, p, op.Payload)
+		alive := l.barrier()
+		fmt.Printf("REPLAY %v -> %d %s err=%v alive=%v\n", op, st, c12short(body, 200), err, alive)
+		if op.Kind == "global" {
+			l.tr.CloseIdleConnections()
+		}
+		if !alive {
+			break
+		}
+		fmt.Printf("REPLAY   list: %s\n", c12short(l.get("/v3/config/paths/list"), 150))
+	}
+	l.close()
 }
